@@ -274,6 +274,10 @@ impl<'a> JsonValueTrait for LazyValue<'a> {
     }
 
     fn as_raw_number(&self) -> Option<RawNumber> {
+        // a quoted number is a string: `RawNumber` itself deserializes from both forms
+        if !self.is_number() {
+            return None;
+        }
         from_str(self.as_raw_str()).ok()
     }
 
